@@ -87,6 +87,7 @@ func H_C08_find_key_bytes(s any) {
 }
 
 // compound key: string with special characters + small number, list in list
+//
 //vp:setup S_c08
 func H_C08_find_compound_key(s any) {
 	m := s.(*meta.Module)
@@ -186,6 +187,7 @@ func H_C08_find_relative(s any) {
 }
 
 // navigation never applies read filters to the steps it walks through
+//
 //vp:setup S_c08
 func H_C08_find_ignores_filters(s any) {
 	m := s.(*meta.Module)
